@@ -29,3 +29,16 @@ func TestDebug(t *testing.T) {
 		}
 	}
 }
+
+// TestCount prints the number of enumerated histories (C01_COUNT=1).
+func TestCount(t *testing.T) {
+	if os.Getenv("C01_COUNT") == "" {
+		t.Skip()
+	}
+	fmt.Println("COUNT", len(enumerate()))
+	R.Eval(nil, "a", true)
+	R.Eval(nil, "b", true)
+	R.States(nil, 1)
+	R.Transitions(1)
+	R.Sample("count")
+}
